@@ -569,6 +569,11 @@ def _tojax(repo, col):
             return out
         if t.op == "binop" and t.name == "+":
             return whole(t.args[0]) + whole(t.args[1])
+        if (t.op == "call" and t.name == "chain") or (t.op == "mcall" and t.name == "chain" and t.args and t.args[0].op == "free"):
+            out = []
+            for a_ in (t.args if t.op == "call" else t.args[1:]):
+                out += whole(a_)
+            return out
         return [t]
 
     def unguarded(s_):
